@@ -48,12 +48,12 @@ SPEC = dict(
         _sweep('cgw_sweep', 'cgw', 700000, 1500, 300), _sweep('text_sweep', 'text', 300000, 2000, 0), _sweep('raw_sweep', 'raw', 300000, 2000, 0), _sweep('slip_sweep', 'slip', 300000, 2000, 0),
     ],
     min_stats={
-        'regress': {'regress_witnesses': 11, 'regress_F5_rejected': 1000, 'regress_micro_walks': 500},
-        'msg': {'cases_msg': 50000, 'accepted_msg': 5000, 'rejected_msg': 20000, 'sweep_truncations': 3000, 'sweep_word_values': 5000, 'truncations_inside_the_first_12_bytes': 300,
+        'regress': {'regress_witnesses': 12, 'regress_post_failure_walks': 300, 'regress_F5_rejected': 1000, 'regress_micro_walks': 500},
+        'msg': {'cases_msg': 50000, 'post_failure_object_walks_msg': 20000, 'accepted_msg': 5000, 'rejected_msg': 20000, 'sweep_truncations': 3000, 'sweep_word_values': 5000, 'truncations_inside_the_first_12_bytes': 300,
                 'family_valid': 500, 'family_structure': 3000, 'family_random': 5000, 'role_nfields': 300, 'role_namelen': 1000, 'role_type': 2000, 'role_paylen': 1000, 'role_count': 500,
                 'role_itemlen': 500, 'role_subsize': 200, 'role_nest': 300, 'reuse_after_failure': 15000, 'reuse_after_success': 500, 'max_items_walked': 300, 'max_alloc_ratio_x100_valid_msg': 1},
-        'tmsg': {'cases_tmsg': 20000, 'accepted_tmsg': 3000, 'rejected_tmsg': 3000, 'sweep_truncations': 1000, 'sweep_word_values': 3000, 'role_tplword': 5000, 'reuse_after_failure': 3000},
-        'mini': {'cases_mini': 20000, 'accepted_mini': 2000, 'rejected_mini': 8000, 'sweep_truncations': 3000, 'sweep_word_values': 5000, 'role_count': 200, 'role_itemlen': 200, 'role_subsize': 100, 'reuse_after_failure': 5000},
+        'tmsg': {'cases_tmsg': 20000, 'post_failure_object_walks_tmsg': 3000, 'accepted_tmsg': 3000, 'rejected_tmsg': 3000, 'sweep_truncations': 1000, 'sweep_word_values': 3000, 'role_tplword': 5000, 'reuse_after_failure': 3000},
+        'mini': {'cases_mini': 20000, 'post_failure_object_walks_mini': 8000, 'accepted_mini': 2000, 'rejected_mini': 8000, 'sweep_truncations': 3000, 'sweep_word_values': 5000, 'role_count': 200, 'role_itemlen': 200, 'role_subsize': 100, 'reuse_after_failure': 5000},
         'micro': {'cases_micro': 20000, 'accepted_micro': 10000, 'rejected_micro': 500, 'sweep_truncations': 3000, 'sweep_word_values': 5000, 'role_namelen': 500, 'role_paylen': 500, 'role_count': 200,
                   'role_itemlen': 200, 'role_subsize': 100, 'max_micro_api_calls': 500},
         'gw': dict(_gw_min, **{'cases_gw': 25000, 'accepted_gw': 3000, 'rejected_gw': 5000, 'role_hdr-size': 300, 'role_hdr-enc': 300, 'role_zlib-rawsize': 50, 'role_zlib-magic': 50,
@@ -66,6 +66,6 @@ SPEC = dict(
         'tunnel': dict(_gw_min, **{'cases_tunnel': 10000, 'role_tun-offset': 100, 'role_tun-chunk': 100, 'role_tun-total': 100, 'role_tun-msgid': 100, 'giant_request_without_limit': 10}),
         'minitunnel': {'cases_minitunnel': 7000, 'role_mtun-chunksize': 100, 'role_mtun-clevel-id': 50, 'role_zlib-rawsize': 20, 'post_reset_delivered': 3000, 'family_structure': 100},
         'cgw': {'cases_cgw': 8000, 'accepted_cgw': 2000, 'rejected_cgw': 1500, 'delivered_cgw': 3000, 'role_hdr-size': 200, 'cgw_valid_all_delivered': 30},
-        'memcheck': {'cases_msg': 300, 'cases_tmsg': 300, 'cases_mini': 300, 'cases_micro': 300},
+        'memcheck': {'post_failure_object_walks_msg': 100, 'post_failure_object_walks_tmsg': 50, 'post_failure_object_walks_mini': 100, 'cases_msg': 300, 'cases_tmsg': 300, 'cases_mini': 300, 'cases_micro': 300},
     },
 )
